@@ -206,13 +206,9 @@ theorem step_shape (m : NsMap) (isDt : Str → Bool) (w : WState) (ev : Ev) (w' 
         obtain ⟨o, ho, hout, hp, _⟩ := flush_shape w false
         by_cases hs : s.isEmpty = true
         · exact ⟨o, [], by simp [hs, hout], ho, Or.inl rfl, by simp [hs, hp]⟩
-        · by_cases ht : (w.flush false).inTail = true
-          · refine ⟨o, [], ?_, ho, Or.inl rfl, ?_⟩
-            · simp [hs, ht, hout]
-            · simp [hs, ht, hp]
-          · refine ⟨o, [Sax.chars s], ?_, ho, Or.inr ⟨s, rfl⟩, ?_⟩
-            · simp [hs, ht, hout]
-            · simp [hs, ht, hp]
+        · refine ⟨o, [Sax.chars s], ?_, ho, Or.inr ⟨s, rfl⟩, ?_⟩
+          · simp [hs, hout]
+          · simp [hs, hp]
   | «end» q =>
     obtain ⟨o, ho, hout, hp, htl⟩ := flush_shape w true
     simp only [WState.step, Except.ok.injEq] at h
